@@ -176,7 +176,8 @@ def eval_helper(case):
         forms['named'] = lambda: getattr(AnsiFormat, {'fg': 'fg_rgb', 'bg': 'bg_rgb', 'ul': 'ul_rgb', 'dul': 'dul_rgb'}[comp])(*args)
         if all(a >= 0 for a in args):
             sep = ', ' if sp else ','
-            inner = sep.join(num(a, hexa) for a in args)
+            hx = case.get('hexes') or [hexa] * 3
+            inner = sep.join(num(a, hx[i % len(hx)]) for i, a in enumerate(args))
             if sp:
                 inner = ' ' + inner + ' '
             inner = {0: inner, 1: '[' + inner + ']', 2: '(' + inner + ')'}[br]
@@ -228,7 +229,7 @@ def strat_helper():
     val24 = st.sampled_from([0, 1, 255, 256, 0xFFFF, 0x10000, 0xABCDEF, 0xFFFFFF, 0x1000000, 0x1ABCDEF]) | st.integers(0, 0x1FFFFFF)
     rgb = st.one_of(st.lists(val8, min_size=3, max_size=3), st.lists(val24, min_size=1, max_size=1))
     c256 = st.lists(st.sampled_from([0, 1, 127, 255, 256, -1]) | st.integers(0, 255), min_size=1, max_size=1)
-    base = dict(comp=st.sampled_from(['fg', 'bg', 'ul', 'dul']), hex=st.booleans(), br=st.integers(0, 2), sp=st.booleans(),
+    base = dict(comp=st.sampled_from(['fg', 'bg', 'ul', 'dul']), hex=st.booleans(), hexes=st.lists(st.booleans(), min_size=3, max_size=3), br=st.integers(0, 2), sp=st.booleans(),
                 uk=st.booleans(), pre=st.booleans())
     return st.one_of(st.fixed_dictionaries(dict(base, kind=st.just('rgb'), args=rgb)),
                      st.fixed_dictionaries(dict(base, kind=st.just('c256'), args=c256)))
@@ -361,6 +362,61 @@ def strat_nested():
     return st.fixed_dictionaries({'tree': tree})
 
 
+# ---------------------------------------------------------------- spellings inside a history
+HIST_NAMES = ['red', 'blue', 'bold', 'faint', 'underline', 'bg_red', 'orange', 'ul_red', 'no_bold_faint', 'fg_default']
+
+
+def spell(name, how):
+    member = AnsiFormat[name.upper()]
+    texts = [str(x) for x in member.ansi_settings]
+    ints = [int(x) for t in texts for x in t.split(';')]
+    return [member, name, name.upper(), mixed(name), name.replace('_', ' '), name.replace('_', '-').title(), list(ints),
+            ';'.join(str(i) for i in ints), ['[' + t for t in texts], [AnsiSetting(t) for t in texts], (member,), [[name]]][how % 12]
+
+
+def eval_history(case):
+    """the same sequence of apply/remove calls, once with AnsiFormat members and once with other spellings, must give
+    the same reported settings and rendering (spellings must be interchangeable inside any history, not only on a fresh string)"""
+    o = Outcome()
+    t = case['t']
+    ref = AnsiString(t)
+    alt = AnsiString(t)
+    alt_s = AnsiStr(t)
+    for st_ in case['steps']:
+        name, how, a, b, top, rm = st_['n'], st_['how'], st_['a'], st_['b'], st_['top'], st_['rm']
+        m = AnsiFormat[name.upper()]
+        f = spell(name, how)
+        if rm:
+            ref.remove_formatting(m, a, b)
+            alt.remove_formatting(f, a, b)
+            alt_s = alt_s.remove_formatting(f, a, b)
+        else:
+            ref.apply_formatting(m, a, b, top)
+            alt.apply_formatting(f, a, b, top)
+            alt_s = alt_s.apply_formatting(f, a, b, top)
+    pr = per_char(ref)
+    for nm, v in (('AnsiString', alt), ('AnsiStr', alt_s)):
+        if per_char(v) != pr or str(v) != str(ref) or v.to_str(None, False) != ref.to_str(None, False):
+            o.fail('history-spelling-differs', '%r on %r: with members %s, with other spellings (%s) %s' % (case['steps'], t, describe(ref), nm, describe(v)))
+            break
+    o.nontrivial = len(case['steps']) >= 3 and len(set(x['n'] for x in case['steps'])) < len(case['steps'])
+    return o
+
+
+@st.composite
+def strat_history(draw):
+    n = draw(st.integers(3, 9))
+    t = 'abcdefghi'[:n]
+    names = draw(st.lists(st.sampled_from(HIST_NAMES), min_size=1, max_size=3))
+    steps = []
+    for _ in range(draw(st.integers(2, 6))):
+        a = draw(st.integers(0, n - 1))
+        steps.append({'n': draw(st.sampled_from(names)), 'how': draw(st.integers(0, 11)), 'a': a,
+                      'b': draw(st.one_of(st.none(), st.integers(a + 1, n))), 'top': draw(st.sampled_from([True, True, False])),
+                      'rm': draw(st.sampled_from([False, False, False, True]))})
+    return {'t': t, 'steps': steps}
+
+
 # ---------------------------------------------------------------- errors
 BAD = [
     ('unknown-name', 'nope', ValueError), ('unknown-name', 'bold1', ValueError), ('unknown-name', 're d', ValueError),
@@ -452,5 +508,7 @@ SUBS = [
     Sub('codes', eval_code, enumerate=enum_codes, exhaustive_note='all SGR codes 0..255 as int/str/padded/verbatim'),
     Sub('helpers', eval_helper, strategy=strat_helper, quick=500, thorough=8000),
     Sub('nested', eval_nested, strategy=strat_nested, quick=500, thorough=8000),
+    Sub('spelling_history', eval_history, strategy=strat_history, quick=500, thorough=8000,
+        rule='2-6 apply/remove calls on nested ranges re-using 1-3 names in 12 spellings, compared with the same calls using AnsiFormat members'),
     Sub('errors', eval_error, enumerate=enum_errors, exhaustive_note='fixed table of invalid forms x 3 wrappings x 5 entry points'),
 ]
